@@ -2,6 +2,8 @@
 
 package redis
 
+import redigolib "github.com/gomodule/redigo/redis"
+
 // Overlay-only shim (never part of /repo): exported doors for the verification harness.
 
 // VerifParseRedisURL exposes parseRedisURL.
@@ -20,3 +22,21 @@ func VerifCollectGarbage(s interface{}, cutoffNs int64) error {
 
 // VerifPopulateProm runs the metrics aggregation once.
 func VerifPopulateProm(s interface{}) { s.(*peerStore).populateProm() }
+
+// VerifHookBeforeDo makes every connection of this store call hook(commandName) before each
+// round trip (Do); a pipelined MULTI…EXEC is one round trip. Used to place another instance's
+// operation between two round trips of this one.
+func VerifHookBeforeDo(s interface{}, hook func(cmd string)) {
+	ps := s.(*peerStore)
+	inner := ps.rb.pool.Dial
+	ps.rb.pool = &redigolib.Pool{
+		MaxIdle: 3,
+		Dial: func() (redigolib.Conn, error) {
+			c, err := inner()
+			if err != nil {
+				return nil, err
+			}
+			return hookConn{Conn: c, hook: hook}, nil
+		},
+	}
+}
